@@ -70,6 +70,7 @@ static void split_src_only(src_coro fn) {
   verif_check(a.private_impl.f_count == b.private_impl.f_count, "split/same-state-count");
   verif_check(a.private_impl.f_acc == b.private_impl.f_acc, "split/same-state-acc");
   verif_check(a.private_impl.f_last == b.private_impl.f_last, "split/same-state-last");
+  verif_check(a.private_impl.f_wide == b.private_impl.f_wide, "split/same-state-wide");
   for (int i = 0; i < 8; i++) verif_check(a.private_data.f_scratch[i] == b.private_data.f_scratch[i], "split/same-state-scratch");
   verif_reach("split/done");
 }
@@ -80,6 +81,7 @@ void harness_split_f3(void) { split_src_only(wuffs_demo__parser__f3); }
 void harness_split_f4(void) { split_src_only(wuffs_demo__parser__f4); }
 void harness_split_f5(void) { split_src_only(wuffs_demo__parser__f5); }
 void harness_split_f7(void) { split_src_only(wuffs_demo__parser__f7); }
+void harness_split_f8(void) { split_src_only(wuffs_demo__parser__f8); }
 
 // ---- transform_io of the corpus: source and destination both split ----
 
